@@ -39,7 +39,7 @@ class C19(Prop):
             'filter_by_ids call created (objects not present in the tree before), then an identical fresh tree is filtered again '
             'and must give the same shape; (2) route independence - --list and --load-list are repeated with the suite reaching '
             'TestProgram unwrapped through a module load_tests hook (bare test cases and suites with their own filter_by_ids as '
-            'root included) and must list / run the same ids (done whenever the root is such an object and for half of the other cases, for run time). '
+            'root included; the id file also with blank lines, CRLF line ends and blanks around the ids) and must list / run the same ids (done whenever the root is such an object and for half of the other cases, for run time). '
             'non-trivial = at least 2 leaves and (a non-plain suite or a duplicate id or a nested suite); distinct = distinct '
             'input S-expression')
     assumptions = ['unittest.TestSuite iteration/_tests semantics and unittest.TestProgram argument parsing are modelled, not verified',
@@ -141,7 +141,7 @@ class C19(Prop):
             root2 = self.build(tree if tree[0] != 'case' else ['plain', tree])
             mod.test_suite = lambda: root2
             with tempfile.NamedTemporaryFile('w', suffix='.list', delete=False) as fh:
-                fh.write(''.join(x + '\n' for x in sorted(idset)))
+                fh.write(self.list_file_text(idset, ids))
             del self.LOG[:]
             try:
                 TestProgram(argv=['prog', '--load-list', fh.name, 'verif_c19_mod.test_suite'], stdout=io.StringIO(), exit=False)
@@ -156,7 +156,7 @@ class C19(Prop):
                 mod2 = types.ModuleType('verif_c19_mod2')
                 mod2.load_tests = lambda loader, tests, pattern, _r=root3: _r
                 with tempfile.NamedTemporaryFile('w', suffix='.list', delete=False) as fh:
-                    fh.write(''.join(x + '\n' for x in sorted(idset)))
+                    fh.write(self.list_file_text(idset, ids))
                 out = io.StringIO()
                 del self.LOG[:]
                 try:
@@ -171,6 +171,19 @@ class C19(Prop):
             return [it, fshape, fit, srt, listed, loaded]
         except Exception as e:
             return ['raised', type(e).__name__]
+
+    def list_file_text(self, idset, ids):
+        """the --load-list file: one id per line; depending on the input also a blank line, CRLF line ends and blanks around an id (ids are
+        stripped by TestProgram; a blank line names the id '' which no generated test has) - none of this may change what is run"""
+        lines = sorted(idset)
+        style = (len(ids) * 3 + sum(ids)) % 4
+        if style == 1:
+            lines = [''] + lines + ['']
+        if style == 2:
+            return ''.join('  ' + x + ' \r\n' for x in lines)
+        if style == 3:
+            lines = lines + ['   ']
+        return ''.join(x + '\n' for x in lines)
 
     def unwrapped_route(self, inp):
         """is the second TestProgram route exercised for this input?  Always when the root is a bare test case or a suite with its
